@@ -105,6 +105,8 @@ where
 
     /// Reads a sequence.
     ///
+    /// If successful, this returns the number of bases read from the stream.
+    ///
     /// # Examples
     ///
     /// ```
